@@ -72,9 +72,9 @@ def confirm(d):
     return res
 
 RELATED = {"C01": ["C01", "C02", "C16", "C17", "C06", "C08"], "C03": ["C03", "C01", "C17", "C11"], "C09": ["C09", "C14", "C11"], "C17": ["C17", "C09"],
-           "C02": ["C02", "C10", "C01", "C17"], "C04": ["C04", "C05", "C06"], "C06": ["C06", "C04"], "C11": ["C11", "C09", "C05"],
+           "C02": ["C02", "C10", "C01", "C17", "C09"], "C04": ["C04", "C05", "C06"], "C06": ["C06", "C04"], "C11": ["C11", "C09", "C05"],
            "C13": ["C13", "C12", "C11"], "C16": ["C16", "C01"], "C05": ["C05", "C04", "C12", "C16", "C01"], "C07": ["C07", "C08", "C04", "C06"], "C08": ["C08", "C07"],
-           "C10": ["C10", "C02", "C17"], "C12": ["C12", "C05", "C06"], "C14": ["C14", "C09"], "C15": ["C15"], "C18": ["C18"], "C19": ["C19", "C20"], "C20": ["C20", "C19"]}
+           "C10": ["C10", "C02", "C17"], "C12": ["C12", "C05", "C06", "C04"], "C14": ["C14", "C09"], "C15": ["C15"], "C18": ["C18"], "C19": ["C19", "C20"], "C20": ["C20", "C19"]}
 
 def detect(sid, extra=None):
     out = os.path.join(VERIF, "seeded", sid)
